@@ -516,7 +516,7 @@ func parseContractFile(path string, pc *PkgContracts) error {
 				if cur.CallSites == nil {
 					cur.CallSites = map[string]*CallSiteSpec{}
 				}
-				if f[0] == "invoke" || f[0] == "dynamic" {
+				if f[0] == "invoke" || f[0] == "dynamic" || f[0] == "go" {
 					// site names with spaces: `invoke T.M#1`, `dynamic FuncType#1`, `dynamic func([]uint8) error#1`:
 					// the site extends to the first word ending in #N
 					for k := 1; k < len(f)-1; k++ {
